@@ -343,7 +343,7 @@ void generate(uint64_t seed, const Str& profile, Desc& d, bool exceptions) {
 
     // configuration
     if ((profile == "pointers" || profile == "lifecycle") && cfg.chance(1, 8)) d.p["static_wrapper"] = cfg.range(1, 2);
-    if ((profile == "pointers" || profile == "lifecycle" || profile == "selection") && cfg.chance(1, 8)) d.p["prologue"] = cfg.range(1, 3);      // 3: the earlier invocation shuffles
+    if ((profile == "pointers" || profile == "lifecycle" || profile == "selection" || profile == "teamcity" || profile == "junit") && cfg.chance(1, 8)) d.p["prologue"] = cfg.range(1, 3);      // 3: the earlier invocation shuffles
     d.p["steer"] = f.leaks ? 1 : 0;      // profiles that leave blocks behind run on the residue-steered platform heap (bucket membership is then a function of the seed)
     if (f.leaks && cfg.chance(1, 4)) d.p["bucket"] = (int64_t)cfg.below(73);      // every tracked block of the run lands in one bucket of the detector's table
     d.p["repeat"] = cfg.chance(1, 3) ? cfg.range(1, burst ? 2 : 5) : 0;
